@@ -58,6 +58,8 @@ func init() {
 			"(R7) close frames are written under the same mutex as data frames. " +
 			"It does not decide acceptance of whole output traces by the protocol automata (interleavings of engine events with client messages).",
 		Mutants: []Mutant{
+			{Name: "graphql-transport-ws frames decoded with the streaming decoder (control for seeded change C19-23; the reader argument is irrelevant to the rule)", File: "execution/subscription/websocket/protocol_graphql_transport_ws.go", Rule: "C19-R8", Key: "GraphQLTransportWSMessageReader.Read/streaming-decode",
+				Old: "\tvar message GraphQLTransportWSMessage\n\terr := json.Unmarshal(data, &message)\n", New: "\tvar message GraphQLTransportWSMessage\n\t_ = data\n\terr := json.NewDecoder(nil).Decode(&message)\n"},
 			{Name: "read time-out flag not reset when the timer is stopped (seeded change C19-12)", File: "execution/subscription/handler.go", Rule: "C19-R5", Key: "timeout-state-pair:readTimeOutCancel",
 				Old: "\t\t\t\tu.readTimeOutCancel()\n\t\t\t\tu.isReadTimeOutTimerRunning = false\n", New: "\t\t\t\tu.readTimeOutCancel()\n"},
 			{Name: "subscribe no longer requires connection_init", File: c19TwGo, Rule: "C19-R1", Key: "start-requires-init",
@@ -391,6 +393,7 @@ func c19LockAnalysis(p *fw.Prog) *fw.LockAnalysis {
 
 func runC19(r *fw.Run) {
 	defer c19ReadTimeoutStatePair(r)
+	defer c19FramesDecodedWhole(r)
 	p := r.Prog
 	ws, sub := p.Pkg("websocket"), p.Pkg("subscription")
 	if ws == nil || sub == nil {
@@ -1894,4 +1897,38 @@ func c19ReadTimeoutStatePair(r *fw.Run) {
 		})
 	}
 	r.Expect("C19-R5", "assignments of the read time-out state", n, 4)
+}
+
+// c19FramesDecodedWhole (R8): a frame that is not one complete JSON message must close the connection with 4400 (bad
+// request). encoding/json offers two decoders: Unmarshal validates the whole buffer, Decoder.Decode reads one value from a
+// stream and stops — a valid message followed by garbage is accepted and executed, a truncated frame surfaces as
+// io.ErrUnexpectedEOF, which callers treat like "nothing to read". The message readers of the websocket package decode a
+// frame they hold as []byte; the rule forbids the streaming decoder in that package (who-may-call, expected count zero;
+// the positive control is the seeded mutant of the thorough tier) and counts the whole-buffer decodes it relies on.
+func c19FramesDecodedWhole(r *fw.Run) {
+	p := r.Prog
+	r.Rule("C19-R8", "client frames are decoded with the whole-buffer decoder (json.Unmarshal): no call of json.Decoder.Decode in the websocket and subscription packages (a streaming decode accepts a valid prefix followed by trailing bytes)")
+	nWhole, nStream := 0, 0
+	for _, pkgAlias := range []string{"websocket", "subscription"} {
+		for _, fi := range p.Funcs(pkgAlias) {
+			info := fi.Info()
+			fw.WalkAll(fi.Decl.Body, func(nd ast.Node) bool {
+				c, ok := nd.(*ast.CallExpr)
+				if !ok {
+					return true
+				}
+				switch {
+				case fw.CallIs(info, c, "encoding/json", "Unmarshal"):
+					nWhole++
+				case fw.CallIs(info, c, "encoding/json", "Decoder.Decode"):
+					nStream++
+					r.Fail("C19-R8", fi.Name()+"/streaming-decode#"+itoa(nStream), p.Pos(c.Pos()), "no streaming JSON decode of a client frame",
+						"json.Decoder.Decode reads one value and stops: `{\"type\":\"ping\"}garbage` is accepted and executed instead of closing the connection with 4400, and a truncated frame is only logged")
+				}
+				return true
+			})
+		}
+	}
+	r.Check(nStream == 0, "C19-R8", "no-streaming-decode", "-", "no json.Decoder.Decode call in execution/subscription and execution/subscription/websocket", "see the individual sites")
+	r.Expect("C19-R8", "whole-buffer decodes (json.Unmarshal) of client data", nWhole, 4)
 }
